@@ -243,19 +243,27 @@ for D in (1, 2, 3):
                absent='int g_cp_calls;')
     VAS = Stub(r'.*boost::multi::subarray<double, %dl, double\*, boost::multi::layout_t<%dl, long> >::operator=(<[^(]*>)?\(boost::multi::const_subarray<double, %dl, double\*, boost::multi::layout_t<%dl, long> > const&\) &' % ((D,)*4),
                record=[('g_L', 0, MSUB(D)), ('g_R', 1, SUB(D))], count='g_as_calls', ret='g_as_ret')
+    RAW = Stub(r'double\* std::uninitialized_copy_n<double( const)?\*, (unsigned )?long, double\*>\(.*', count='g_raw_calls', ret='g_raw_ret', optional=True,
+               record=[('g_raw_first', 0, None, 'ptr'), ('g_raw_n', 1, None), ('g_raw_dst', 2, None, 'ptr')], absent='double *g_raw_first; I64 g_raw_n; double *g_raw_dst;')
+    ii = ['g_i%d' % k for k in range(D)]
+    in_range = ' && '.join('%s <= %s && %s < %s + %s' % (fb[k], ii[k], ii[k], fb[k], nb[k]) for k in range(D))
+    lin = ' + '.join('MUL(%s - %s, %s)' % (ii[k], fb[k], prod(nb[k+1:]) if k < D-1 else '1') for k in range(D))
+    addr = ' + '.join('(MUL(%s, %s) - %s)' % (ii[k], lp('v', k, 'stride_'), lp('v', k, 'offset_')) for k in range(D))
     same_view = lambda g, v, cast='': ' && '.join(['%s.base_ == %s->base_' % (g, v)] + ['%s.%s%s == %s' % (g, 'sub_.'*k, x, lp(v, k, x)) for k in range(D) for x in ('stride_', 'offset_', 'nelems_')])
     Check('O%d_assign_view' % D, ['C04', 'C19'], 'own', fn='w_O%d_assign_view' % D, params=['self', 'v'],
           wrapper=('void', 'AR<%d>* self, CS<%d> const* v' % (D, D), '*self = *v;'),
-          cxx={'self': ARR(D), 'v': SUB(D)}, ghosts=ghosts_fn(D) + ghosts_fn(D, f='g_e', n='g_m'), stubs=[NEW, DEL, UCN, VAS], mode='uf',
+          cxx={'self': ARR(D), 'v': SUB(D)}, ghosts=ghosts_fn(D) + ghosts_fn(D, f='g_e', n='g_m') + [(I64, x) for x in ii], stubs=[NEW, DEL, UCN, VAS, RAW], mode='uf',
           requires=[' && '.join('0 <= %s && %s < SMALL && INR(%s)' % (n, n, f) for n, f in zip(na, fa)), is_canonical('self', D, na, fa), WF('v', D, f='g_e', n='g_m'),
                     '%s == 0 && %s == 1' % (lp('v', D, 'offset_'), lp('v', D, 'nelems_')), 'INOFF(%s) && INOFF(%s)' % (Na, Nb), ' && '.join('%s < SMALL' % n for n in nb),
-                    ' && '.join('INOFF(%s) && INOFF(%s)' % (lp('v', k, 'nelems_'), lp('v', k, 'offset_')) for k in range(D)), 'self->base_ != 0 && v->base_ != 0 && g_block != 0 && PTR_SANE(v->base_)'],
+                    ' && '.join('INOFF(%s) && INOFF(%s)' % (lp('v', k, 'nelems_'), lp('v', k, 'offset_')) for k in range(D)), 'self->base_ != 0 && v->base_ != 0 && g_block != 0 && PTR_SANE(v->base_)', ' && '.join('INR(%s)' % x for x in ii)],
           lemmas=prod_lemmas(na, fa) + prod_lemmas(nb, fb) + WF_lemmas('v', D, f='g_e', n='g_m'),
           ensures=canonical_ens('self', D, nb, fb, lambda k: '%s == 0' % nb[k], guard='EXC == 0 && !(%s)' % same_ext, what='the target') + [
-                   ('equal extensions: [delegation] exactly one view assignment, nothing else', 'IMPLIES(EXC == 0 && %s, g_as_calls == 1 && g_cp_calls == 0 && g_news == 0 && g_deletes == 0)' % same_ext),
+                   ('[delegation] equal extensions: exactly one view assignment, nothing else', 'IMPLIES(EXC == 0 && %s, g_as_calls == 1 && g_cp_calls == 0 && g_raw_calls == 0 && g_news == 0 && g_deletes == 0)' % same_ext),
                    ('equal extensions: the view assignment writes the whole target (its base and layout in every dimension) from exactly the source view; storage and layout of the target are kept',
                     'IMPLIES(EXC == 0 && %s && g_as_calls == 1, %s && %s && self->base_ == OLD(self->base_) && %s)' % (same_ext, same_view('g_L', 'self'), same_view('g_R', 'v'), is_canonical('self', D, na, fa))),
-                   ('different extensions: [delegation] the elements are copied by exactly one std::uninitialized_copy_n over the elements() range; no view assignment', 'IMPLIES(EXC == 0 && !(%s), g_cp_calls == 1 && g_as_calls == 0)' % same_ext),
+                   ('[delegation] different extensions: the elements are copied by exactly one std::uninitialized_copy_n over the elements() range; no view assignment', 'IMPLIES(EXC == 0 && !(%s), g_cp_calls == 1 && g_as_calls == 0 && g_raw_calls == 0)' % same_ext),
+                   ('a flat copy of the source storage (instead of the elements() range) is only used when, for every index tuple, the flat position of the element is its canonical linear index',
+                    'IMPLIES(EXC == 0 && g_raw_calls >= 1 && %s, g_raw_calls == 1 && g_cp_calls == 0 && g_raw_n == %s && g_raw_dst == self->base_ && g_raw_first + (%s) == v->base_ + (%s))' % (in_range, Nb, lin, addr)),
                    ('different extensions: it receives elements().begin() of the source view (same base, same layout, position 0), the full count, the new storage',
                     'IMPLIES(EXC == 0 && !(%s) && g_cp_calls == 1, g_cp_first.n_ == 0 && %s && g_cp_n == %s && g_cp_dst == self->base_)' % (same_ext, same_range('g_cp_first', 'v', D), Nb)),
                    ('different extensions: storage for exactly num_elements() elements is obtained once; the old storage is released exactly once (if there was any)',
